@@ -33,10 +33,33 @@ def load_variants() -> List[dict]:
         v = dict(v)
         v.setdefault("kind", "mutant")
         out.append(v)
+    # independently seeded changes and neutral refactorings kept as patch files
+    import glob
+    import json
+    for meta_path in sorted(glob.glob(os.path.join(VERIF, "seeded", "*", "meta.json"))):
+        with open(meta_path) as fh:
+            meta = json.load(fh)
+        if not meta.get("caught_by_target_property_check"):
+            continue  # documented miss (DESIGN.md section 9)
+        out.append({"id": "seeded:" + meta["id"], "kind": "mutant", "prop": meta["breaks_property"],
+                    "patch": os.path.join(os.path.dirname(meta_path), "patch.diff")})
+    for meta_path in sorted(glob.glob(os.path.join(VERIF, "neutral", "*", "meta.json"))):
+        with open(meta_path) as fh:
+            meta = json.load(fh)
+        out.append({"id": "neutral:" + meta["id"], "kind": "neutral", "props": meta.get("props") or ALL_PROPS,
+                    "patch": os.path.join(os.path.dirname(meta_path), "patch.diff")})
     return out
 
 
+ALL_PROPS = [f"C{i:02d}" for i in range(1, 21)]
+
+
 def apply_edit(root: str, v: dict) -> Optional[str]:
+    if "patch" in v:
+        proc = subprocess.run(["patch", "-p1", "-s", "-i", v["patch"]], cwd=root, capture_output=True, text=True)
+        if proc.returncode != 0:
+            return "patch does not apply: " + (proc.stdout + proc.stderr)[-200:]
+        return None
     path = os.path.join(root, "asyncstdlib", v["file"])
     with open(path) as fh:
         src = fh.read()
